@@ -92,6 +92,16 @@ def s3():
 # reference evaluation of returned operations
 
 
+def q2_layout(desc):
+    """Qubit pair handed to a routine: sorted order or reversed (q0 > q1), chosen by descriptor parity.
+    Results are always evaluated in the order (q0, q1) that was handed over."""
+    par = sum(int(t) for t in desc if isinstance(t, (int, np.integer))) % 2
+    return list(Q2) if par == 0 else [Q2[1], Q2[0]]
+
+
+PERM3 = list(itertools.permutations(range(3)))
+
+
 def flat_ops(tree):
     return list(cirq.flatten_to_ops(tree))
 
@@ -335,9 +345,10 @@ def run_kak(desc):
         if desc[0] == 2 or (desc[4] == L.LOC_I and desc[5] == L.LOC_I) or desc[4] == desc[5]:
             # the protocol methods of the returned object are plain functions of its fields: checked on a sub-family
             F.close("kak_unitary", L.exact_err(kak_product(k), cirq.unitary(k)), 1e-8, "kak_unitary_protocol", "cirq.unitary(KakDecomposition) differs from the documented product formula")
-            ok2, dops = guarded(F, "kak_decompose", cirq.decompose_once_with_qubits, k, Q2)
+            qs = q2_layout(desc)
+            ok2, dops = guarded(F, "kak_decompose", cirq.decompose_once_with_qubits, k, qs)
             if ok2:
-                F.close("kak_decompose", L.exact_err(u, ops_unitary(flat_ops(dops), Q2)), TOL, "kak_decompose", "KakDecomposition._decompose_ does not rebuild U")
+                F.close("kak_decompose", L.exact_err(u, ops_unitary(flat_ops(dops), qs)), TOL, "kak_decompose", "KakDecomposition._decompose_ does not rebuild U")
     ok, k2 = guarded(F, "kak", cirq.kak_decomposition, cirq.MatrixGate(u), check_preconditions=False)
     if ok:
         _check_kak_obj(F, k2, u, info, "kak_decomposition(MatrixGate(U), check_preconditions=False)")
@@ -423,8 +434,9 @@ def run_cz_main(desc):
 def run_cz(desc, full=True):
     """full=False: the four option combinations of two_qubit_matrix_to_cz_operations only."""
     u, info = s2().build(desc)
-    F = Fails(f"S2{desc} = {info['name']}")
-    a, b = Q2
+    QS = q2_layout(desc)
+    F = Fails(f"S2{desc} = {info['name']} on qubits {QS}")
+    a, b = QS
     ncn = info["ncnot"]
     for allow_partial in (False, True):
         for clean in (True, False):
@@ -436,7 +448,7 @@ def run_cz(desc, full=True):
                     continue
                 ops = flat_ops(ops)
                 tol = max(10 * atol, TOL)
-                F.close("cz" if atol == 1e-8 else "cz_atol1e-5", L.phase_err(u, ops_unitary(ops, Q2)), tol, "cz_unitary", f"{label} does not rebuild U up to global phase")
+                F.close("cz" if atol == 1e-8 else "cz_atol1e-5", L.phase_err(u, ops_unitary(ops, QS)), tol, "cz_unitary", f"{label} does not rebuild U up to global phase")
                 _cz_target_checks(F, ops, label, allow_partial)
                 n = count2q(ops)
                 F.need(n <= 3, "cz_count_bound", f"{label}: {n} CZ gates > 3")
@@ -457,7 +469,7 @@ def run_cz(desc, full=True):
             d = np.asarray(d)
             form = d.shape == (4, 4) and np.allclose(d, np.diag(np.diag(d)), atol=1e-8) and np.allclose(np.abs(np.diag(d)), 1, atol=1e-8)
             F.need(form, "diag_cz_form", lambda: f"{label}: D is not a diagonal unitary: {fmt(d)}")
-            F.close("diag_cz", L.phase_err(u, ops_unitary(ops, Q2) @ d), TOL, "diag_cz_unitary", f"{label}: Circuit(ops) @ D != V up to global phase")
+            F.close("diag_cz", L.phase_err(u, ops_unitary(ops, QS) @ d), TOL, "diag_cz_unitary", f"{label}: Circuit(ops) @ D != V up to global phase")
             _cz_target_checks(F, ops, label, allow_partial)
             n = count2q(ops)
             F.need(n <= 3, "diag_cz_count_bound", f"{label}: {n} CZ gates > 3")
@@ -471,7 +483,7 @@ def run_cz(desc, full=True):
             if not ok:
                 continue
             ops = flat_ops(ops)
-            w = ops_unitary(ops, Q2)
+            w = ops_unitary(ops, QS)
             F.close("isometry", L.phase_err(u[:, :2], w[:, :2]), TOL, "isometry_unitary", f"{label}: action on |0>(x)psi differs from U")
             _cz_target_checks(F, ops, label, allow_partial)
             n = count2q(ops)
@@ -492,8 +504,9 @@ def run_sqrt_iswap_main(desc):
 def run_sqrt_iswap(desc, full=True):
     """full=False: use_sqrt_iswap_inv=False, clean_operations=False only (all five required counts)."""
     u, info = s2().build(desc)
-    F = Fails(f"S2{desc} = {info['name']}")
-    a, b = Q2
+    QS = q2_layout(desc)
+    F = Fails(f"S2{desc} = {info['name']} on qubits {QS}")
+    a, b = QS
     feas = info["sq_feas"]
     for inv in ((False, True) if full else (False,)):
         target = cirq.SQRT_ISWAP_INV if inv else cirq.SQRT_ISWAP
@@ -513,7 +526,7 @@ def run_sqrt_iswap(desc, full=True):
                             F.count("documented_rejections")
                     continue
                 ops = flat_ops(ops)
-                F.close("sqrt_iswap", L.phase_err(u, ops_unitary(ops, Q2)), TOL, "sqrt_iswap_unitary", f"{label} does not rebuild U up to global phase")
+                F.close("sqrt_iswap", L.phase_err(u, ops_unitary(ops, QS)), TOL, "sqrt_iswap_unitary", f"{label} does not rebuild U up to global phase")
                 types_ok = all((nq(o) == 1 and (isinstance(o.gate, cirq.PhasedXZGate) if clean else isinstance(o.gate, (cirq.XPowGate, cirq.YPowGate, cirq.ZPowGate))))
                                or (nq(o) == 2 and o.gate == target) for o in ops)
                 F.need(types_ok, "sqrt_iswap_gate_types", f"{label}: unexpected operations {[str(o) for o in ops if not (nq(o) == 1)]} / 1q types {sorted({type(o.gate).__name__ for o in ops if nq(o) == 1})}")
@@ -576,14 +589,15 @@ def run_four_fsim(case):
 
 def run_ion_syc(desc):
     u, info = s2().build(desc)
-    F = Fails(f"S2{desc} = {info['name']}")
-    a, b = Q2
+    QS = q2_layout(desc)
+    F = Fails(f"S2{desc} = {info['name']} on qubits {QS}")
+    a, b = QS
     for clean in (True, False):
         label = f"two_qubit_matrix_to_ion_operations(clean_operations={clean})"
         ok, ops = guarded(F, "ion", cirq.two_qubit_matrix_to_ion_operations, a, b, u, clean_operations=clean)
         if ok:
             ops = flat_ops(ops)
-            F.close("ion", L.phase_err(u, ops_unitary(ops, Q2)), TOL, "ion_unitary", f"{label} does not rebuild U up to global phase")
+            F.close("ion", L.phase_err(u, ops_unitary(ops, QS)), TOL, "ion_unitary", f"{label} does not rebuild U up to global phase")
             two = [o for o in ops if nq(o) != 1]
             F.need(all(nq(o) == 2 and isinstance(o.gate, cirq.XXPowGate) for o in two), "ion_gate_types", lambda: f"{label}: non-MS multi-qubit ops {[str(o) for o in two]}")
             F.need(len(two) <= 3, "ion_count_bound", f"{label}: {len(two)} MS gates > 3")
@@ -592,7 +606,7 @@ def run_ion_syc(desc):
         ok, ops = guarded(F, "sycamore", cirq_google.two_qubit_matrix_to_sycamore_operations, a, b, u, clean_operations=clean)
         if ok:
             ops = flat_ops(ops)
-            F.close("sycamore", L.phase_err(u, ops_unitary(ops, Q2)), TOL, "sycamore_unitary", f"{label} does not rebuild U up to global phase")
+            F.close("sycamore", L.phase_err(u, ops_unitary(ops, QS)), TOL, "sycamore_unitary", f"{label} does not rebuild U up to global phase")
             two = [o for o in ops if nq(o) != 1]
             F.need(all(nq(o) == 2 and o.gate == cirq_google.SYC for o in two), "sycamore_gate_types", lambda: f"{label}: non-SYC multi-qubit ops {[str(o) for o in two]}")
             F.need(len(two) <= 6, "sycamore_count_bound", f"{label}: {len(two)} SYC gates > 6 (two per partial CZ, at most three partial CZ)")
@@ -633,7 +647,8 @@ def param_cases():
 
 def run_param_sqrt_iswap(case):
     kind, i, j, inv, sym = case
-    a, b = Q2
+    QS = q2_layout(case)
+    a, b = QS
     F = Fails(f"parameterized_2q_op_to_sqrt_iswap_operations case {case}")
     ts = sympy.Symbol("t")
     ps = sympy.Symbol("p")
@@ -656,7 +671,7 @@ def run_param_sqrt_iswap(case):
         want = G.fsim(th, ph)
         resolver = {"t": th, "p": ph}
         nm = f"FSimGate({th!r},{ph!r}{' via symbols' if sym else ''})"
-    F.name = f"{nm}, use_sqrt_iswap_inv={bool(inv)}"
+    F.name = f"{nm}, use_sqrt_iswap_inv={bool(inv)}, qubits {QS}"
     ok, r = guarded(F, "param_sqrt_iswap", cirq.parameterized_2q_op_to_sqrt_iswap_operations, gate.on(a, b), use_sqrt_iswap_inv=bool(inv))
     if not ok:
         return F.result()
@@ -666,7 +681,7 @@ def run_param_sqrt_iswap(case):
     ok, ops = guarded(F, "param_sqrt_iswap_resolve", lambda: [cirq.resolve_parameters(o, resolver) for o in flat_ops(r)])
     if not ok:
         return F.result()
-    F.close("param_sqrt_iswap", L.phase_err(want, ops_unitary(ops, Q2)), TOL, "param_sqrt_iswap_unitary", "decomposition does not rebuild the gate up to global phase")
+    F.close("param_sqrt_iswap", L.phase_err(want, ops_unitary(ops, QS)), TOL, "param_sqrt_iswap_unitary", "decomposition does not rebuild the gate up to global phase")
     target = cirq.SQRT_ISWAP_INV if inv else cirq.SQRT_ISWAP
     two = [o for o in ops if nq(o) != 1]
     F.need(all(nq(o) == 2 and o.gate == target for o in two), "param_sqrt_iswap_types", lambda: f"multi-qubit ops other than {target}: {[str(o) for o in two]}")
@@ -1018,13 +1033,15 @@ def run_eig(i):
 # S3 / n-qubit
 
 
-def run_three_qubit(i):
+def run_three_qubit(case):
+    i, pi = case
     nm, u = s3()[i]
-    F = Fails(f"S3[{i}] = {nm}")
-    ok, ops = guarded(F, "three_qubit", cirq.three_qubit_matrix_to_operations, *Q3, u)
+    qs = [Q3[k] for k in PERM3[pi]]
+    F = Fails(f"S3[{i}] = {nm} on qubits {qs}")
+    ok, ops = guarded(F, "three_qubit", cirq.three_qubit_matrix_to_operations, *qs, u)
     if ok:
         ops = flat_ops(ops)
-        F.close("three_qubit", L.phase_err(u, ops_unitary(ops, Q3)), TOL, "three_qubit_unitary", "three_qubit_matrix_to_operations does not rebuild U up to global phase")
+        F.close("three_qubit", L.phase_err(u, ops_unitary(ops, qs)), TOL, "three_qubit_unitary", "three_qubit_matrix_to_operations does not rebuild U up to global phase")
         two = [o for o in ops if nq(o) != 1]
         F.need(all(nq(o) == 2 and (o.gate == cirq.CZ or o.gate == cirq.CNOT) for o in two), "three_qubit_types", lambda: f"multi-qubit ops other than CZ/CNOT: {sorted({str(o.gate) for o in two})}")
         F.need(len(two) <= 20, "three_qubit_count", f"{len(two)} two-qubit gates (module documents at most 20 CZ/CNOT)")
@@ -1044,6 +1061,22 @@ def shannon_inputs(tier):
     for d in L.s2_descs("quick", "small")[::(9 if tier == "quick" else 3)]:
         u, info = s2().build(d)
         out.append((2, info["name"], u))
+    # local two-qubit blocks: the synthesis of the block then touches one qubit (or none) only
+    for i, c in enumerate(L.CLIFF):
+        p = np.exp(1j * PI * (i % 8) / 4)
+        out.append((2, f"e^(i pi {i % 8}/4) C{i} (x) I", np.kron(p * c, L.I2)))
+        out.append((2, f"I (x) e^(i pi {i % 8}/4) C{i}", np.kron(L.I2, p * c)))
+        if i % 4 == 0:
+            out.append((2, f"C{i} (x) C{(i * 7 + 3) % 24}", np.kron(c, L.CLIFF[(i * 7 + 3) % 24])))
+    gq = E.generic_unitary(2, 80 + _S["seed"])
+    for i in (0, 3, 7, 12, 17, 22):
+        c = L.CLIFF[i]
+        out.append((3, f"C{i} (x) I (x) I", E.kron(c, L.I2, L.I2)))
+        out.append((3, f"I (x) C{i} (x) I", E.kron(L.I2, c, L.I2)))
+        out.append((3, f"I (x) I (x) C{i}", E.kron(L.I2, L.I2, c)))
+        out.append((3, f"gen (x) C{i} (x) I", E.kron(gq, c, L.I2)))
+        out.append((3, f"CZ(0,1) (x) C{i}", np.kron(G.czpow(1), c)))
+        out.append((3, f"C{i} (x) CZ(1,2)", np.kron(c, G.czpow(1))))
     for nm, u in s3():
         out.append((3, nm, u))
     if tier != "quick":
@@ -1057,10 +1090,22 @@ def shannon_inputs(tier):
     return out
 
 
-def run_shannon(i):
+def shannon_layouts(n):
+    if n == 1:
+        return [(0,)]
+    if n == 2:
+        return [(0, 1), (1, 0)]
+    if n == 3:
+        return PERM3
+    return [(0, 1, 2, 3), (2, 3, 1, 0)]
+
+
+def run_shannon(case):
+    i, li = case
     n, nm, u = _S["shannon"][i]
-    qs = cirq.LineQubit.range(n)
-    F = Fails(f"quantum_shannon_decomposition n={n} input {nm}")
+    base = cirq.LineQubit.range(n)
+    qs = [base[k] for k in shannon_layouts(n)[li]]
+    F = Fails(f"quantum_shannon_decomposition n={n} input {nm} on qubits {qs}")
     ok, ops = guarded(F, "shannon", lambda: list(cirq.quantum_shannon_decomposition(qs, u)))
     if ok:
         ops = flat_ops(ops)
@@ -1184,14 +1229,16 @@ def prep_states():
 PREP_TOL = 1e-6  # the routines compute an intermediate state in complex64 (documented in code): single-precision round-off
 
 
-def run_state_prep(i):
+def run_state_prep(case):
+    i, lay = case
     nm, st, ent = _S["prep"][i]
-    a, b = Q2
+    QS = list(Q2) if lay == 0 else [Q2[1], Q2[0]]
+    a, b = QS
     tgt = st / np.linalg.norm(st)
     schmidt = np.linalg.svd(tgt.reshape(2, 2), compute_uv=False)
     if ent is None and nm.startswith("stabilizer"):
         ent = 1 if schmidt[1] > 0.1 else 0
-    F = Fails(f"state {nm} = {fmt(st)}")
+    F = Fails(f"state {nm} = {fmt(st)} on qubits {QS}")
     routines = [
         ("prepare_two_qubit_state_using_cz", lambda: cirq.prepare_two_qubit_state_using_cz(a, b, st), lambda g: g == cirq.CZ),
         ("prepare_two_qubit_state_using_iswap(use_iswap_inv=False)", lambda: cirq.prepare_two_qubit_state_using_iswap(a, b, st, use_iswap_inv=False), lambda g: g == cirq.ISWAP),
@@ -1204,7 +1251,7 @@ def run_state_prep(i):
         if not ok:
             continue
         ops = flat_ops(ops)
-        got = ops_unitary(ops, Q2)[:, 0]
+        got = ops_unitary(ops, QS)[:, 0]
         F.close("state_prep", L.phase_err(tgt, got), PREP_TOL, "state_prep_state", f"{label}: circuit|00> differs from the requested state up to global phase (Schmidt coefficients {tuple(schmidt)})")
         two = [o for o in ops if nq(o) != 1]
         F.need(all(nq(o) == 2 and is_target(o.gate) for o in two) and len(two) <= 1, "state_prep_types", lambda: f"{label}: multi-qubit ops {[str(o) for o in two]} (at most one target gate documented)")
@@ -1326,10 +1373,13 @@ def clifford_inputs(tier):
     return items
 
 
-def run_clifford(i):
+def run_clifford(case):
+    i, lay = case
     n, xs, zs, rs = _S["cliff"][i]
     qs = cirq.LineQubit.range(n)
-    F = Fails(f"CliffordTableau n={n} xs={xs.astype(int).tolist()} zs={zs.astype(int).tolist()} rs={rs.astype(int).tolist()}")
+    if lay:
+        qs = qs[::-1]
+    F = Fails(f"CliffordTableau n={n} xs={xs.astype(int).tolist()} zs={zs.astype(int).tolist()} rs={rs.astype(int).tolist()} on qubits {list(qs)}")
     t = cirq.CliffordTableau(n, rs=rs.copy(), xs=xs.copy(), zs=zs.copy())
     ok, ops = guarded(F, "clifford", cirq.decompose_clifford_tableau_to_operations, qs, t)
     if ok:
@@ -1441,12 +1491,12 @@ def stages(tier, seed):
         CaseStage("parameterized_to_sqrt_iswap", param_cases(), run_param_sqrt_iswap, reset=reset),
         CaseStage("known_ops_to_sycamore", list(range(len(known_syc_ops()))), run_known_syc, reset=reset),
         CaseStage("cphase_into_two_fsim", [(i, j, k) for i in range(len(ts)) for j in range(len(ths)) for k in range(len(phs))], run_cphase_fsim, reset=reset),
-        CaseStage("s3_three_qubit", list(range(len(s3()))), run_three_qubit, reset=reset),
-        CaseStage("quantum_shannon", list(range(len(_S["shannon"]))), run_shannon, reset=reset),
+        CaseStage("s3_three_qubit", [(i, p) for i in range(len(s3())) for p in range(6)], run_three_qubit, reset=reset),
+        CaseStage("quantum_shannon", [(i, l) for i, (n, _, _) in enumerate(_S["shannon"]) for l in range(len(shannon_layouts(n)))], run_shannon, reset=reset),
         CaseStage("multi_controlled_x", mcx_cases(), run_mcx, reset=reset),
         CaseStage("multi_controlled_rotation", mcrot_cases(), run_mcrot, reset=reset),
-        CaseStage("two_qubit_state_preparation", list(range(len(_S["prep"]))), run_state_prep, reset=reset),
-        CaseStage("clifford_tableau_synthesis", list(range(len(_S["cliff"]))), run_clifford, reset=reset),
+        CaseStage("two_qubit_state_preparation", [(i, l) for i in range(len(_S["prep"])) for l in (0, 1)], run_state_prep, reset=reset),
+        CaseStage("clifford_tableau_synthesis", [(i, l) for i, c in enumerate(_S["cliff"]) for l in ((0, 1) if c[0] == 2 else (0,))], run_clifford, reset=reset),
         CaseStage("gate_tabulation", tab_cases, run_tabulation, reset=reset),
     ]
     return st
